@@ -55,22 +55,25 @@ def specNext (σ : PlainMap) : KvCmd → KvReply → PlainMap
   | _, _ => σ
 
 /-- what the plain map says the reply must be -/
-def specReplyOk (σ : PlainMap) : KvCmd → KvReply → Prop
-  | .set _ _ ver, r => ver = -1 → r = .ok
+def specReplyOk (σ : PlainMap) (exhausted : Bytes → Prop) : KvCmd → KvReply → Prop
+  | .set k _ ver, r => ver = -1 → (r = .ok ∨ exhausted k)
   | .get k, r => r = .value ((σ k).getD Gen.emptyValue)
   | .remove k, r => (r = .ok ↔ k ≠ Gen.tokenKey) ∧ (r = .ok ∨ r = .refused)
-  | .inc k n, r => (r = .ok ↔ ∃ cur, specNumeric σ k = some cur ∧ Bytes.fitsI32 (cur + n) = true) ∧ (r = .ok ∨ r = .refused)
+  | .inc k n, r => (r = .ok ↔ (∃ cur, specNumeric σ k = some cur ∧ Bytes.fitsI32 (cur + n) = true) ∧ ¬ exhausted k) ∧ (r = .ok ∨ r = .refused)
   | .persist _ _, r => r = .ok
 
+/-- the key's version counter sits at `i32::MAX`: a plain write can no longer be given a higher version -/
+def Db.exhausted (db : Db) (k : Bytes) : Prop := db.versionCapped k = true
+
 def cmdOk : KvCmd → Prop
-  | .set _ _ ver => -1 ≤ ver
+  | .set _ _ ver => -1 ≤ ver ∧ ver ≤ 2147483647
   | _ => True
 
-theorem setValue_verInv (db : Db) (c : Change) (h : VerInv db) (hv : -1 ≤ c.version) (hr : c.resolve = false) :
+theorem setValue_verInv (db : Db) (c : Change) (h : VerInv db) (hv : -1 ≤ c.version ∧ c.version ≤ 2147483647) (hr : c.resolve = false) :
     VerInv (db.setValue c).1 := by
   unfold Db.setValue
   cases hg : db.getValue c.key with
-  | none => exact verInv_setValueVersion _ _ _ _ _ _ _ _ h (by omega)
+  | none => exact verInv_setValueVersion _ _ _ _ _ _ _ _ h (by unfold vinc; split <;> omega)
   | some old =>
     simp only []
     split
@@ -82,6 +85,8 @@ theorem setValue_verInv (db : Db) (c : Change) (h : VerInv db) (hv : -1 ≤ c.ve
       have h1 : c.version ≠ Gen.inConflictVersion := by unfold Gen.inConflictVersion; omega
       have h2 : old.version ≠ Gen.inConflictVersion := by unfold Gen.inConflictVersion; omega
       simp only [decide_eq_true_eq, h1, h2, if_false, Bool.false_eq_true]
+      have := le_vinc c.version; have := le_vinc old.version
+      have := vinc_le_max c.version hv.2; have := vinc_le_max old.version hold.2
       split <;> omega
 
 theorem incValue_verInv (db : Db) (k : Bytes) (inc : Int) (op : Nat) (h : VerInv db) :
@@ -89,11 +94,14 @@ theorem incValue_verInv (db : Db) (k : Bytes) (inc : Int) (op : Nat) (h : VerInv
   unfold Db.incValue
   split
   · split
-    · simp only [Db.incStore]
-      split
-      · rename_i e hg
-        exact verInv_setValueVersion _ _ _ _ _ _ _ _ h (by have := h k e hg; omega)
-      · exact verInv_setValueVersion _ _ _ _ _ _ _ _ h (by omega)
+    · split
+      · exact h
+      · simp only [Db.incStore]
+        split
+        · rename_i e hg
+          exact verInv_setValueVersion _ _ _ _ _ _ _ _ h
+            (by have hb := h k e hg; have := le_vinc e.version; have := vinc_le_max e.version hb.2; omega)
+        · exact verInv_setValueVersion _ _ _ _ _ _ _ _ h (by omega)
     · exact h
   · exact h
 
@@ -114,10 +122,12 @@ theorem removeValue_verInv (db db' : Db) (k : Bytes) (ps : List Push) (h : VerIn
         split at hg'
         · simp at hg'
         · exact h k' e' hg'
-      · exact verInv_setValueVersion _ _ _ _ _ _ _ _ h (by have := h k e hg; omega)
+      · exact verInv_setValueVersion _ _ _ _ _ _ _ _ h (by have hb := h k e hg; have := le_vinc e.version; have := vinc_le_max e.version hb.2; omega)
 
-/-- a plain write to a database whose versions are all non-negative is never refused -/
-theorem setValue_plain_accepted (db : Db) (c : Change) (h : VerInv db) (hv : c.version = -1) (hr : c.resolve = false) :
+/-- a plain write to a database whose versions are all non-negative is refused only when the
+key's version counter is exhausted -/
+theorem setValue_plain_accepted (db : Db) (c : Change) (h : VerInv db) (hv : c.version = -1) (hr : c.resolve = false)
+    (hfree : ¬ db.exhausted c.key) :
     ∃ db' ps, db.setValue c = (db', .set c.key c.value, ps) := by
   unfold Db.setValue
   cases hg : db.getValue c.key with
@@ -125,12 +135,17 @@ theorem setValue_plain_accepted (db : Db) (c : Change) (h : VerInv db) (hv : c.v
   | some old =>
     simp only []
     have hold := h c.key old hg
+    have hlt : old.version < 2147483647 := by
+      by_cases hx : old.version < 2147483647
+      · exact hx
+      · have : old.version = 2147483647 := by omega
+        exact absurd (by simp [Db.exhausted, Db.versionCapped, hg, this]) hfree
     have hnv : c.nextVersion old = old.version + 1 := by
       simp only [Change.nextVersion, Change.keepInConflict, Entry.inConflict, inConflict, hr, hv]
       have h2 : ¬ old.version = -2 := by omega
-      simp [h2, Gen.inConflictVersion]
+      simp [h2, Gen.inConflictVersion, vinc_eq _ hlt]
     rw [hnv]
-    have : ¬ (old.version + 1 ≤ old.version ∧ ¬ c.keepInConflict = true) := by omega
+    have : ¬ (old.version + 1 ≤ old.version ∧ ¬ c.keepInConflict = true) := fun hh => by omega
     simp only [this, if_false]
     exact ⟨_, _, rfl⟩
 
@@ -138,7 +153,7 @@ theorem setValue_plain_accepted (db : Db) (c : Change) (h : VerInv db) (hv : c.v
 theorem kvStep_sim (s : KvSt) (c : KvCmd) (hw : s.db.WF) (hc : cmdOk c) :
     (kvStep s c).1.db.WF ∧
     (kvStep s c).1.db.view = specNext s.db.view c (kvStep s c).2 ∧
-    specReplyOk s.db.view c (kvStep s c).2 := by
+    specReplyOk s.db.view s.db.exhausted c (kvStep s c).2 := by
   cases c with
   | set k v ver =>
     simp only [cmdOk] at hc
@@ -153,7 +168,7 @@ theorem kvStep_sim (s : KvSt) (c : KvCmd) (hw : s.db.WF) (hc : cmdOk c) :
       | set k' v' =>
         have e : kvStep s (.set k v ver) = ({ s with db := db', clock := s.clock + 1 }, .ok) := by simp [kvStep, hres]
         rw [e]
-        refine ⟨hwf, ?_, fun _ => rfl⟩
+        refine ⟨hwf, ?_, fun _ => Or.inl rfl⟩
         simp only [specNext]
         exact setValue_ok_view _ _ _ _ _ _ hres
       | versionError k' ov v' old c' st =>
@@ -161,8 +176,10 @@ theorem kvStep_sim (s : KvSt) (c : KvCmd) (hw : s.db.WF) (hc : cmdOk c) :
         rw [e]
         refine ⟨hw, rfl, ?_⟩
         intro hplain
-        obtain ⟨db2, ps2, h2⟩ := setValue_plain_accepted s.db { key := k, value := v, version := ver, opId := s.clock, resolve := false } hw.ver hplain rfl
-        rw [h2] at hres; simp at hres
+        by_cases hex : s.db.exhausted k
+        · exact Or.inr hex
+        · obtain ⟨db2, ps2, h2⟩ := setValue_plain_accepted s.db { key := k, value := v, version := ver, opId := s.clock, resolve := false } hw.ver hplain rfl hex
+          rw [h2] at hres; simp at hres
   | get k =>
     have e : kvStep s (.get k) = (s, .value (s.db.getKV k).1) := rfl
     rw [e]
@@ -197,11 +214,11 @@ theorem kvStep_sim (s : KvSt) (c : KvCmd) (hw : s.db.WF) (hc : cmdOk c) :
       | ok =>
         have e : kvStep s (.inc k n) = ({ s with db := db', clock := s.clock + 1 }, .ok) := by simp [kvStep, hres]
         rw [e]
-        obtain ⟨cur, h1, h2, h3⟩ := incValue_ok_view _ _ _ _ _ _ hres
+        obtain ⟨cur, h1, h2, hcap, h3⟩ := incValue_ok_view _ _ _ _ _ _ hres
         refine ⟨hwf, ?_, ?_⟩
         · simp only [specNext]; rw [h3, h1]; rfl
         · simp only [specReplyOk]
-          refine ⟨⟨fun _ => ⟨cur, h1, h2⟩, fun _ => by trivial⟩, by simp⟩
+          refine ⟨⟨fun _ => ⟨⟨cur, h1, h2⟩, by simp [Db.exhausted, hcap]⟩, fun _ => by trivial⟩, by simp⟩
       | notNumeric =>
         have e : kvStep s (.inc k n) = ({ s with clock := s.clock + 1 }, .refused) := by simp [kvStep, hres]
         rw [e]
@@ -214,6 +231,12 @@ theorem kvStep_sim (s : KvSt) (c : KvCmd) (hw : s.db.WF) (hc : cmdOk c) :
         obtain ⟨⟨cur, h1, h2⟩, _, _⟩ := incValue_overflow _ _ _ _ _ _ hres
         refine ⟨hw, rfl, ?_⟩
         simp [specReplyOk, h1, h2]
+      | versionCap =>
+        have e : kvStep s (.inc k n) = ({ s with clock := s.clock + 1 }, .refused) := by simp [kvStep, hres]
+        rw [e]
+        obtain ⟨hcap, _, _⟩ := incValue_versionCap _ _ _ _ _ _ hres
+        refine ⟨hw, rfl, ?_⟩
+        simp [specReplyOk, Db.exhausted, hcap]
   | persist r o =>
     obtain ⟨hv, hw'⟩ := snapshotDb_view s.db s.fs r o s.clock hw
     cases hres : snapshotDb s.db s.fs r o s.clock with
@@ -226,22 +249,20 @@ theorem kvStep_sim (s : KvSt) (c : KvCmd) (hw : s.db.WF) (hc : cmdOk c) :
       refine ⟨hw', hv, ?_⟩
       simp [specReplyOk]
 
-/-- replies the plain map accepts for a whole command sequence -/
-def specRunOk : PlainMap → List KvCmd → List KvReply → Prop
-  | _, [], [] => True
-  | σ, c :: cs, r :: rs => specReplyOk σ c r ∧ specRunOk (specNext σ c r) cs rs
-  | _, _, _ => False
+/-- every reply of a command sequence is the plain map's, and the map evolves as the plain map does -/
+def kvRunOk : KvSt → List KvCmd → Prop
+  | _, [] => True
+  | s, c :: cs =>
+    specReplyOk s.db.view s.db.exhausted c (kvStep s c).2 ∧
+    (kvStep s c).1.db.view = specNext s.db.view c (kvStep s c).2 ∧
+    kvRunOk (kvStep s c).1 cs
 
-theorem kvRun_sim (cs : List KvCmd) : ∀ (s : KvSt), s.db.WF → (∀ c ∈ cs, cmdOk c) →
-    specRunOk s.db.view cs (kvRun s cs) := by
+theorem kvRun_sim (cs : List KvCmd) : ∀ (s : KvSt), s.db.WF → (∀ c ∈ cs, cmdOk c) → kvRunOk s cs := by
   induction cs with
   | nil => intro s _ _; trivial
   | cons c cs ih =>
     intro s hw hc
     obtain ⟨hw', hv, hr⟩ := kvStep_sim s c hw (hc c (by simp))
-    simp only [kvRun, specRunOk]
-    refine ⟨hr, ?_⟩
-    rw [← hv]
-    exact ih _ hw' (fun c' h' => hc c' (by simp [h']))
+    exact ⟨hr, hv, ih _ hw' (fun c' h' => hc c' (by simp [h']))⟩
 
 end Nun
